@@ -273,12 +273,16 @@ CHECKS = {
     "C02": simple_table_check(
         [dict(module="Signature", sub="tbl-signature", prefixes=("C02.",), sig=c02_sig, need=c02_need, label="signature / key-selection table",
               required=["rp:accept:-", "rp:reject:signature", "rp:reject:alg", "rp:reject:parse", "rp:reject:multiple", "rp:reject:payload",
-                        "find:found", "find:none", "find:multiple", "at:accept", "hint:accept"])],
+                        "find:found", "find:none", "find:multiple", "at:accept", "hint:accept"]),
+         dict(module="Assertion", sub="tbl-assertion", prefixes=("C02.",), sig=lambda o: c14a_sig(o), need=lambda o: c14a_need(o), label="JWT assertion table (key rules)",
+              required=["verify:accept", "bearerP:accept", "bearerL:accept"]),
+         dict(module="RequestObject", sub="tbl-reqobj", prefixes=("C02.",), sig=lambda o: c14r_sig(o), need=lambda o: c14r_need(o), label="request object table (key rules)",
+              required=["P:login:obj", "L:login:obj"])],
         ["keys are real RSA-2048 / P-256 / Ed25519 keys; signatures are computed by the harness with crypto/* directly (not with go-jose), forged "
          "variants (foreign key, HMAC keyed with the public key, alg none, empty / garbage signature, re-encoded or replaced payload, JSON "
          "serialisations smuggling a second payload, two signatures) are built byte by byte",
          "entry points: rp.VerifyIDToken over rp.NewRemoteKeySet (fake JWKS endpoint), op.VerifyAccessToken and op.VerifyIDTokenHint over op.OpenIDKeySet, "
-         "oidc.FindMatchingKey; JWT-profile assertions and request objects (per-client key storage) are covered by C14's table",
+         "oidc.FindMatchingKey; JWT-profile assertions and request objects (per-client key storage): rules C02.assertion.key / C02.reqobj.key of C14's tables, run here as well",
          "case domain: all token deviations in <= 2 dimensions from the fitting token of every key of every key set of <= 2 keys"]),
     "C03": c03_check,
     "C01": simple_table_check(
